@@ -739,6 +739,43 @@ pub async fn large_exchange() {
     let (a, b) = (&rig.nodes[&1], &rig.nodes[&2]);
     let mut sum = Summary::default();
     let mut docs_total = 0u64;
+    // differences that consist of removals only, of sizes just past the round numbers a batching of removals may use
+    let removal_sizes: Vec<u64> = arg_or("--removal-sizes", "1001,4097,10001").split(',').filter(|x| !x.is_empty()).map(|x| x.parse().unwrap()).collect();
+    for (si, r) in removal_sizes.iter().enumerate() {
+        let ks = format!("gone{r}");
+        let base = 150_000 + si as u64 * 100;
+        let t_put = HLCTimestamp::new(Duration::from_secs(base), 0, 1);
+        verif::set_node_wall(1, Some(Duration::from_secs(base + 40)));
+        verif::set_node_wall(2, Some(Duration::from_secs(base + 40)));
+        let actor_a = a.grp().get_or_create_keyspace(&ks).await;
+        let actor_b = b.grp().get_or_create_keyspace(&ks).await;
+        let all: Vec<(u64, HLCTimestamp)> = (1..=*r).map(|i| (i, t_put)).collect();
+        for chunk in all.chunks(20_000) {
+            // both nodes hold the documents; the sending node then deletes every one of them, each at a stamp of its own
+            let _ = actor_a.send(MultiSet { source: 0, docs: docs_of(chunk), ctx: None, _marker: PhantomData::<St> }).await;
+            let _ = actor_b.send(MultiSet { source: 0, docs: docs_of(chunk), ctx: None, _marker: PhantomData::<St> }).await;
+        }
+        let gone: Vec<(u64, HLCTimestamp)> = (1..=*r).map(|i| (i, HLCTimestamp::new(Duration::from_secs(base + 10) + Duration::from_millis(4 * (i % 5000)), (i / 5000) as u16, 1))).collect();
+        for chunk in gone.chunks(20_000) {
+            let _ = actor_a.send(MultiDel { source: 0, docs: metas_of(chunk), _marker: PhantomData::<St> }).await;
+        }
+        let mut members = BTreeMap::new();
+        members.insert(a.id, a.addr);
+        repair::repair_round(&b.grp(), &b.network, &members).await;
+        let mut ma: Vec<(u64, HLCTimestamp, bool)> = a.store.iter_metadata(&ks).await.unwrap().collect();
+        let mut mb: Vec<(u64, HLCTimestamp, bool)> = b.store.iter_metadata(&ks).await.unwrap().collect();
+        ma.sort();
+        mb.sort();
+        docs_total += ma.len() as u64;
+        sum.evaluations += 1;
+        if ma != mb {
+            let missing = ma.iter().filter(|e| !mb.contains(e)).count();
+            let still_live = mb.iter().filter(|e| !e.2).count();
+            sum.violation(json!({"property": "C05", "removals": r, "why": [format!(
+                "after one exchange of {r} removals the receiving node differs from the sending node in {missing} entries; {still_live} documents the sender deleted are still live there")]}));
+        }
+        sum.sample(json!({"removals": r, "entries_on_sender": ma.len(), "entries_on_receiver": mb.len()}));
+    }
     for (si, n) in sizes.iter().enumerate() {
         let ks = format!("large{n}");
         let base = 200_000 + si as u64 * 100;
@@ -815,6 +852,7 @@ pub async fn large_exchange() {
     sum.set("faulty_exchanges", cases.len() as u64);
     sum.set("faults_run_into", consumed);
     sum.set("sizes", json!(sizes));
+    sum.set("removal_sizes", json!(removal_sizes));
     sum.set("entries", docs_total);
     sum.write(&out_path);
 }
